@@ -651,6 +651,35 @@ fn c02(ctx: &Ctx, col: &mut Collector, extra: &mut serde_json::Value) {
         col.count("df_len_cells", 1);
     });
     col.merge(c);
+    // sparse buffers: all bits but the format clear / set, one further bit or byte set, at every
+    // length (what a "noise filter" would take for an empty message is a frame like any other)
+    let c = par_units(ctx, "c02-sparse", 32, |i, _r, col, slot| {
+        let df = i as u8;
+        for len in 0..=32usize {
+            for fill in [0x00u8, 0xFF] {
+                let mut base = vec![fill; len];
+                if len > 0 {
+                    setbits(&mut base, 1, 5, u64::from(df));
+                }
+                let mut variants = vec![base.clone()];
+                for k in 1..len {
+                    let mut v = base.clone();
+                    v[k] ^= 0xFF;
+                    variants.push(v);
+                    let mut v = base.clone();
+                    v[k] ^= 1 << (k % 8);
+                    variants.push(v);
+                }
+                for m in variants {
+                    slot.begin(|| hex(&m));
+                    obs::judge(&ctx.g, col, &m);
+                    slot.end();
+                    col.count("sparse_buffers", 1);
+                }
+            }
+        }
+    });
+    col.merge(c);
     // truncation at every length and trailing-garbage differential on frames of every class
     let classes = gen::all_classes();
     let reps = ctx.q(2u64, 40);
